@@ -407,33 +407,9 @@ func h4CondsOfAlt(ci ssa.CallInstruction, alt h4Alt) []Cond {
 // h4NonEmptyFact: cd says "v is not the empty string" (v != "" true, v == "" false, either
 // operand order; len(v) > 0 / != 0 true).
 func h4NonEmptyFact(cd Cond, v ssa.Value) bool {
-	val, truth := cd.V, cd.Truth
-	for {
-		if u, ok := val.(*ssa.UnOp); ok && u.Op == token.NOT {
-			val, truth = u.X, !truth
-			continue
-		}
-		break
-	}
-	b, ok := val.(*ssa.BinOp)
-	if !ok {
-		return false
-	}
-	isEmpty := func(x ssa.Value) bool { s, isS := constString(x); return isS && s == "" }
-	isLenOf := func(x ssa.Value) bool {
-		call, ok := x.(*ssa.Call)
-		return ok && callName(&call.Call) == "builtin.len" && call.Call.Args[0] == v
-	}
-	isZero := func(x ssa.Value) bool { k, isC := constInt(x); return isC && k == 0 }
-	switch {
-	case b.X == v && isEmpty(b.Y), b.Y == v && isEmpty(b.X):
-		return b.Op == token.NEQ && truth || b.Op == token.EQL && !truth
-	case isLenOf(b.X) && isZero(b.Y):
-		return (b.Op == token.NEQ || b.Op == token.GTR) && truth || (b.Op == token.EQL || b.Op == token.LEQ) && !truth
-	case isLenOf(b.Y) && isZero(b.X):
-		return (b.Op == token.NEQ || b.Op == token.LSS) && truth || (b.Op == token.EQL || b.Op == token.GEQ) && !truth
-	}
-	return false
+	// every spelling: v != "", len(v) != 0, len(v) > 0, len(v) >= 1, !(len(v) < 1), ... (emptyform.go)
+	x, empty, ok := emptyCond(cd)
+	return ok && !empty && x == v
 }
 
 // h4LeafPath renders a value leaf as an access path in the terms of fn (a leaf of a helper frame has
